@@ -221,8 +221,10 @@ class RecSchema(Atomic):
     """Shape of a 'typed JSON' object: constant keys (key -> concrete value), mandatory fields and optional fields
     (key -> TypeDesc).  The key set of the object is exactly consts + fields + the optional fields that are present."""
 
-    def __init__(self, name, consts, fields, optional=()):
+    def __init__(self, name, consts, fields, optional=(), acc=None, sort=None):
         self.name, self.consts, self.fields, self.optional = name, dict(consts), list(fields), set(optional)
+        self.acc = acc          # explicit z3 accessor per key (fields that live in a constructor of a union datatype)
+        self.sort = sort
 
     def __repr__(self):
         return f'<schema {self.name}>'
@@ -237,6 +239,27 @@ class RecV:
 
     def __repr__(self):
         return f'<json {self.schema.name} {self.expr}>'
+
+    def __deepcopy__(self, memo):
+        return self
+
+
+class JUnion(Atomic):
+    """A closed union of JSON values: z3 datatype with one constructor per variant.  variants: list of
+    (recognizer, make) where make(expr) gives the value of that variant (a RecV or a non-dict value)."""
+
+    def __init__(self, name, sort):
+        self.name, self.sort, self.variants = name, sort, []
+
+
+class JUnionV:
+    """A JSON value of a JUnion whose variant is not decided yet; every observation narrows it first."""
+
+    def __init__(self, uni, expr):
+        self.uni, self.expr = uni, expr
+
+    def __repr__(self):
+        return f'<json-union {self.uni.name} {self.expr}>'
 
     def __deepcopy__(self, memo):
         return self
